@@ -129,7 +129,7 @@ fn second_boundary_warm_up() {
     while subsec_ms() < 850 {
         std::thread::sleep(std::time::Duration::from_millis(5));
     }
-    let cfg = EntityCfg { len: 10, etag: None, mtime_ns: Some(784111777u128 * 1_000_000_000), hdrs: vec![], recipes: vec![], default_recipe: vec![Op::Rest], split: false };
+    let cfg = EntityCfg { len: 10, etag: None, mtime_ns: Some(784111777u128 * 1_000_000_000), hdrs: vec![], recipes: vec![], default_recipe: vec![Op::Rest], split: false, mtime_before_epoch: false };
     let ent = ScriptedEntity { cfg, log: Arc::new(Mutex::new(Log::default())) };
     let req = http::Request::builder().method("GET").body(()).unwrap();
     let _ = catch_unwind(AssertUnwindSafe(|| http_serve::serve(ent, &req)));
@@ -357,6 +357,7 @@ pub fn case_of_input(v: &Val) -> Option<ServeCase> {
             recipes,
             default_recipe: vec![],
             split: false,
+            mtime_before_epoch: false,
         },
         method: r[0].as_b()?.clone(),
         headers,
@@ -365,4 +366,55 @@ pub fn case_of_input(v: &Val) -> Option<ServeCase> {
         class: "replay".into(),
         hints: l[6].clone(),
     })
+}
+
+
+/// Entities whose modification time lies before 1970 (a restored or mis-dated file): harness-level checks
+/// only -- the model's times start at the epoch. serve() must answer (C13), with a Last-Modified that does
+/// not exceed the Date (C14); echoing the served Last-Modified must work as for any other entity.
+pub fn pre_epoch_checks() -> Vec<String> {
+    let mut fails = vec![];
+    for (secs, sub) in [(0u64, 1u32), (0, 750_000_000), (31_536_000, 250_000_000), (86_400 * 365 * 300, 0)] {
+        for method in ["GET", "HEAD"] {
+            for hdrs in [
+                vec![],
+                vec![("if-modified-since", "Thu, 01 Jan 1970 00:00:00 GMT")],
+                vec![("if-unmodified-since", "Thu, 01 Jan 1970 00:00:00 GMT")],
+                vec![("if-modified-since", "Sun, 06 Nov 1994 08:49:37 GMT")],
+                vec![("range", "bytes=1-3")],
+                vec![("range", "bytes=1-3"), ("if-range", "Thu, 01 Jan 1970 00:00:00 GMT")],
+                vec![("range", "bytes=1-3, 5-6")],
+                vec![("range", "bytes=500-")],
+            ] {
+                let cfg = EntityCfg {
+                    len: 100, etag: Some(b"\"abc\"".to_vec()), mtime_ns: Some(secs as u128 * 1_000_000_000 + sub as u128),
+                    hdrs: vec![], recipes: vec![], default_recipe: vec![Op::Rest], split: false, mtime_before_epoch: true,
+                };
+                let ent = ScriptedEntity { cfg, log: Arc::new(Mutex::new(Log::default())) };
+                let mut rb = http::Request::builder().method(method);
+                for (k, v) in &hdrs {
+                    rb = rb.header(*k, *v);
+                }
+                let req = rb.body(()).unwrap();
+                let tag = format!("mtime=-{}.{:09}s {} {:?}", secs, sub, method, hdrs);
+                match catch_unwind(AssertUnwindSafe(|| http_serve::serve(ent, &req))) {
+                    Err(_) => fails.push(format!("serve-panicked-for-an-entity-dated-before-1970({})", tag.replace(',', ";"))),
+                    Ok(resp) => {
+                        let st = resp.status().as_u16();
+                        if ![200u16, 206, 304, 412, 416].contains(&st) {
+                            fails.push(format!("unexpected-status-for-an-entity-dated-before-1970({} {})", st, tag.replace(',', ";")));
+                        }
+                        let date = resp.headers().get("date").and_then(|v| v.to_str().ok()).and_then(|s| httpdate::parse_http_date(s).ok());
+                        let lm = resp.headers().get("last-modified").and_then(|v| v.to_str().ok()).and_then(|s| httpdate::parse_http_date(s).ok());
+                        if let (Some(d), Some(l)) = (date, lm) {
+                            if l > d {
+                                fails.push(format!("last-modified-exceeds-date({})", tag.replace(',', ";")));
+                            }
+                        }
+                    }
+                }
+            }
+        }
+    }
+    fails
 }
